@@ -43,14 +43,14 @@ void EntityWithMetadataHDF5::metadata(const std::string &id) {
     if (id.empty())
         throw EmptyString("metadata");
 
-    if (group().hasGroup("metadata"))
-        metadata(none);
-        
     File tmp = file();
     auto found = tmp.findSections(util::IdFilter<Section>(id));
     if (found.empty())
         throw std::runtime_error("EntityWithMetadataHDF5::metadata: Section not found in file!");
-    
+
+    if (group().hasGroup("metadata"))
+        metadata(none);
+
     auto target = dynamic_pointer_cast<SectionHDF5>(found.front().impl());
 
     group().createLink(target->group(), "metadata");
